@@ -7,7 +7,7 @@ reported as 'findings owned by other properties'.
 from . import sched, workload
 
 TIER = {
-    "quick":    {"corpus_sets": 2, "gen": 420, "plan": {"n_inputs": 6, "maxlen": 28, "n_sched": 5, "exhaustive_n": 6, "n_multi": 2}},
+    "quick":    {"corpus_sets": 2, "gen": 600, "plan": {"n_inputs": 6, "maxlen": 28, "n_sched": 5, "exhaustive_n": 6, "n_multi": 2}},
     "thorough": {"corpus_sets": 10, "gen": 6000, "plan": {"n_inputs": 12, "maxlen": 96, "n_sched": 10, "exhaustive_n": 9, "n_multi": 4}},
 }
 
